@@ -349,15 +349,27 @@ pub fn closure_case(name: &str, world: &FcWorld, extra_meta: Value, mut dist: Ve
     }
   }
   dist.push(("modules".into(), facts.len() as u64));
+  dist.push(("private_declarations_pulled_in".into(), facts.iter().map(|f| f.pulled as u64).sum()));
+  dist.push(("private_declarations_dropped".into(), facts.iter().map(|f| f.dropped as u64).sum()));
   dist.push(("modules_with_output".into(), n_out));
   dist.push(("source_map_segments".into(), n_segs));
   dist.push(("source_map_identifier_segments".into(), n_ident_segs));
   if run.skipped {
     dist.push(("graph_errors_no_fast_check".into(), 1));
   }
-  let diags: usize = slots(&run.graph).values().filter(|s| matches!(s, Slot::Error(_))).count();
-  if diags > 0 {
+  let mut codes: std::collections::BTreeSet<String> = Default::default();
+  for s in slots(&run.graph).values() {
+    if let Slot::Error(ds) = s {
+      for (c, _) in ds {
+        codes.insert(c.clone());
+      }
+    }
+  }
+  if !codes.is_empty() {
     dist.push(("worlds_with_diagnostics".into(), 1));
+  }
+  for c in codes {
+    dist.push((format!("diag_{}", c), 1));
   }
   let mut meta = json!({"kind": "closure", "name": name, "modules_with_output": n_out, "details": details, "extra": extra_meta});
   if name.starts_with("gen") {
@@ -367,7 +379,7 @@ pub fn closure_case(name: &str, world: &FcWorld, extra_meta: Value, mut dist: Ve
     input: Sx::L(vec![Sx::A(10), Sx::L(mods_sx)]),
     obs: Sx::L(obs),
     meta,
-    nontrivial: n_out >= 1,
+    nontrivial: facts.iter().any(|f| f.has_output && f.pulled >= 1 && f.dropped >= 1),
     dist,
     direct_violations: vec![],
   }
